@@ -1,12 +1,13 @@
 import P2PVerif.Model.CacheOps
 import P2PVerif.Lemmas.Distance
 import P2PVerif.Lemmas.ForEach
+import P2PVerif.Lemmas.SrcKad
 /-! # C19 — nearest-first queries really are nearest-first and complete
 Property theorems only. `distanceCmp` is `DistanceCmp` of p/kademlia/distance.go as written (byte loop plus
 length rules); `Cache.forEach` is `Cache.ForEach` run to completion. Bytes are `Nat`s; `validBytes` says they
 are < 256 (true of everything that comes out of a Go `[]byte`). -/
 namespace P2PVerif.C19
-open P2PVerif P2PVerif.Kad
+open P2PVerif P2PVerif.Kad P2PVerif.Src P2PVerif.Go P2PVerif.SrcKad
 
 /-- ⊢ `DistanceCmp(x,a,b)` agrees with `bytes.Compare(Distance(x,a), Distance(x,b))`, for all lengths. -/
 theorem cmp_is_compare_of_xor (x a b : Bytes) : distanceCmp x a b = lexCmp (distance x a) (distance x b) :=
@@ -82,5 +83,45 @@ theorem forEachMatching_exact (c : Cache) (pfx : Bytes) (nbits : Nat) (hl : vali
 -- and the repaired order puts 20 first
 example : (((Cache.new [0] 10 0).run [.update ⟨[64], [], 1, 0⟩ [], .update ⟨[32], [], 1, 0⟩ []]).forEach [128]).map (·.key)
     = [[32], [64]] := by decide
+
+/-! ### about the definitions regenerated from p/kademlia/distance.go and cache.go (`Gen/Src.lean`) -/
+
+/-- ⊢ (source) `DistanceCmp` never faults and is `bytes.Compare(Distance(x,a), Distance(x,b))` on every input;
+    the model's `distanceCmp` used in the theorems above is what the code computes. -/
+theorem src_DistanceCmp (x a b : Go.Bytes) :
+    kademlia.DistanceCmp x a b = .ok (ordInt (lexCmp (distance (nb x) (nb a)) (distance (nb x) (nb b)))) := by
+  rw [DistanceCmp_eq, Kad.cmp_is_compare_of_xor]
+
+/-- ⊢ (source) `DistanceLt`/`DistanceGt` are the strict sides of that comparison -/
+theorem src_DistanceLt (x a b : Go.Bytes) :
+    kademlia.DistanceLt x a b = .ok (distanceLt (nb x) (nb a) (nb b)) := DistanceLt_eq x a b
+
+theorem src_DistanceGt_converse (x a b : Go.Bytes) :
+    kademlia.DistanceGt x a b = kademlia.DistanceLt x b a := by
+  rw [DistanceGt_eq, DistanceLt_eq]
+  unfold distanceLt
+  have := (Kad.cmp_total_preorder (nb x) (nb b) (nb a) (nb a)).2.1
+  cases h1 : distanceCmp (nb x) (nb a) (nb b) <;> cases h2 : distanceCmp (nb x) (nb b) (nb a) <;> simp_all
+
+/-- ⊢ (source) `Distance`, `LeadingZeros`, `DistanceLz` and `Cache.bucketIndex` compute the model's functions and
+    never fault. -/
+theorem src_Distance (a b : Go.Bytes) : (nb <$> kademlia.Distance a b) = .ok (distance (nb a) (nb b)) :=
+  Distance_model a b
+theorem src_LeadingZeros (x : Go.Bytes) : kademlia.LeadingZeros x = .ok (leadingZeros (nb x) : Int) :=
+  LeadingZeros_eq x
+theorem src_DistanceLz (a b : Go.Bytes) : kademlia.DistanceLz a b = .ok (distanceLz (nb a) (nb b) : Int) :=
+  DistanceLz_eq a b
+theorem src_bucketIndex (locus key : Go.Bytes) :
+    kademlia.Cache.bucketIndex locus key = .ok (bucketIndex (nb locus) (nb key) : Int) := bucketIndex_eq locus key
+
+/-- ⊢ (source) `HasPrefix` panics exactly when asked for more bits than the prefix has (the case
+    `Cache.ForEachMatching` must exclude) and is the model's predicate otherwise. -/
+theorem src_HasPrefix (x pfx : Go.Bytes) (nbits : Nat) :
+    kademlia.HasPrefix x pfx nbits =
+      if nbits > pfx.length * 8 then .error (Go.Fault.panic "nbits longer than prefix")
+      else .ok (hasPrefix (nb x) (nb pfx) nbits) := HasPrefix_eq x pfx nbits
+
+/-- every byte string that comes out of Go is a valid byte string of the model -/
+theorem src_bytes_valid (x : Go.Bytes) : validBytes (nb x) := nb_lt x
 
 end P2PVerif.C19
